@@ -6,10 +6,11 @@ From Verif Require Import Lib.Bytes Model.EpochKG Model.EpochKGLabels Model.Epoc
 From Verif Require Export Model.GossipMisc.
 Import ListNotations.
 
-(* Which variant of the model the tree under test implements: the functions of the pinned tree
-   (defects D1 and D5 are open). *)
-Definition impl_v_core_shares : validator := legacy_v_core_shares.
-Definition impl_h_commit : handler := legacy_h_commit.
+(* Which variant of the model the tree under test implements: the repaired functions (after
+   /repo commits "fix: key shares validation rejects a keyper index outside the DKG result" and
+   "fix: getBidderNodeAddress refuses a signature that is not 65 bytes long"). *)
+Definition impl_v_core_shares : validator := v_core_shares.
+Definition impl_h_commit : handler := h_commit.
 
 (* one handler object's ValidateMessage *)
 Inductive vsel :=
